@@ -25,6 +25,9 @@ func main() {
 		for _, id := range ids {
 			fmt.Println(id)
 		}
+	case "c16one":
+		// debugging aid: run one input through one C16 target without recovery (prints the stack)
+		checks.C16One(os.Args[2], os.Args[3])
 	case "check":
 		if len(os.Args) < 4 {
 			usage()
